@@ -57,6 +57,18 @@ def table():
                     {"op": "wait", "id": "w", "x": {"k": "or", "xs": [
                         {"k": "flag", "n": "F"}, {"k": "cmp", "l": "X", "op": "<", "r": 1}]}},
                     dict(flag_on, **tracked)))
+    # a connective object that also guards an until-block elsewhere (so it has a helper activity
+    # watching its children) and becomes true in the time step in which it is awaited
+    shared_or = {"k": "shared", "n": "SO", "x": {"k": "or", "xs": [{"k": "flag", "n": "A"},
+                                                                     {"k": "flag", "n": "B"}]}}
+    guard = [{"name": "h", "ops": [{"op": "scope", "label": "HG", "children": [],
+                                    "until": shared_or, "body": [{"op": "eternity"}]}]},
+             {"name": "hset", "ops": [{"op": "sleep", "d": 0.25},
+                                      {"op": "flag_set", "on": "A", "to": True}]}]
+    rows.append(row("await connective that guards an until-block elsewhere, just become true",
+                    {"op": "wait", "id": "w", "x": shared_or},
+                    {"A": {"kind": "flag"}, "B": {"kind": "flag"}}, helpers=guard,
+                    setup=[{"op": "sleep", "d": 0.25}], spin_after=0.25))
     helper = [{"name": "h", "ops": [], "ret": 7}]
     rows.append(row("await done task", {"op": "await_task", "task": "h"}, helpers=helper,
                     setup=[{"op": "postpone", "k": 3}]))
